@@ -499,6 +499,7 @@ func check(run *enga.Run) *sim.Violation {
 			}
 			switch op.Op {
 			case "Fresh":
+				run.Out.Probes["fresh_instance_created_during_run"]++
 				if r.Done && !r.OK {
 					return &sim.Violation{Class: "fresh_instance_disturbed", Site: "ringz.NewSync", Detail: fmt.Sprintf("a ring created while other rings are in use: pushed %#x, Len() = %d, %d further pushes fitted into capacity %d, Pop() = %#x (expected length 1, capacity-1 further pushes and the first value back)", r.Vs[0], r.Vs[1], r.Vs[2], r.Vs[3], r.V)}
 				}
